@@ -212,6 +212,12 @@ func (ex *Exec) contractModKeys(fc *FuncContract, callee *ssa.Function, sig *typ
 			keys["*new"] = true
 			continue
 		}
+		if aks, ok := ex.allButKeys(it, env); ok {
+			for _, k := range aks {
+				keys[k] = true
+			}
+			continue
+		}
 		ks, _ := ex.modItem(it, env)
 		for _, k := range ks {
 			keys[k] = true
